@@ -113,13 +113,13 @@ def enumerate_exprs(tier, seed):
             risky.append({"k": outer, "x": {"k": "seq", "xs": [{"k": loop, "x": a}, b]}})
             risky.append({"k": outer, "x": {"k": "seq", "xs": [a, {"k": loop, "x": b}]}})
             risky.append({"k": "seq", "xs": [{"k": outer, "x": {"k": "seq", "xs": [{"k": loop, "x": a}, b]}}, a]})
-    n3 = 300 if tier == "quick" else 6000
+    n3 = 300 if tier == "quick" else 2500
     sample3 = rnd.sample(d3, min(n3, len(d3)))
     exprs += risky + sample3
     if tier == "thorough":
         d4 = []
         pool = d1 + d2 + sample3[:400]
-        for _ in range(3000):
+        for _ in range(1000):
             k = rnd.choice(["opt", "some", "many", "seq", "alt", "seq3"])
             if k in ("opt", "some", "many"):
                 d4.append({"k": k, "x": rnd.choice(sample3)})
@@ -130,7 +130,7 @@ def enumerate_exprs(tier, seed):
         exprs += d4
     # tagged choices (2..3 alternatives)
     pool = d1 + d2
-    nt = 150 if tier == "quick" else 1500
+    nt = 150 if tier == "quick" else 600
     for _ in range(nt):
         n = rnd.choice([2, 2, 3])
         exprs.append({"k": "tagged", "xs": [rnd.choice(pool) for _ in range(n)]})
@@ -400,7 +400,7 @@ def run(tier, seed, gen_info, known_ids=()):
     """returns list of evidence records"""
     start = time.time()
     build_tablegen()
-    L = 8 if tier == "quick" else 12
+    L = 8 if tier == "quick" else 10
     exprs = enumerate_exprs(tier, seed)
     p = subprocess.run([TABLEGEN, "c15"], input="\n".join(json.dumps(e) for e in exprs) + "\n",
                        capture_output=True, text=True, timeout=1800)
